@@ -493,9 +493,26 @@ func (w *World) body(m *mat, args []reflect.Value) []reflect.Value {
 		}
 		nf := w.h.Fns[f.Reenter-1]
 		s := w.regScope[f.ID]
-		w.logf("    f%d re-enters the container: Invoke(f%d) from s%d", f.ID, nf.ID, s)
-		nerr, npan := guarded(func() error { return w.scopeInvoke(s, w.materialize(nf, false).val) })
-		w.logf("    nested Invoke(f%d) -> %s panic=%v", nf.ID, classify(nerr), npan)
+		var nerr error
+		var npan interface{}
+		if f.ReenterProvide {
+			if exec == 1 {
+				// (once: a second Provide of the same function would only be a duplicate)
+				w.logf("    f%d re-enters the container: Provide(f%d) to s%d", f.ID, nf.ID, s)
+				nerr, npan = guarded(func() error { return w.scopeProvide(s, w.materialize(nf, false).val) })
+				w.logf("    nested Provide(f%d) -> %s panic=%v", nf.ID, classify(nerr), npan)
+				if w.mon != nil {
+					w.mon.onNestedProvide(nf, s, nerr == nil && npan == nil)
+				}
+				if nerr == nil && npan == nil {
+					w.regScope[nf.ID] = s
+				}
+			}
+		} else {
+			w.logf("    f%d re-enters the container: Invoke(f%d) from s%d", f.ID, nf.ID, s)
+			nerr, npan = guarded(func() error { return w.scopeInvoke(s, w.materialize(nf, false).val) })
+			w.logf("    nested Invoke(f%d) -> %s panic=%v", nf.ID, classify(nerr), npan)
+		}
 		if npan != nil {
 			if _, ok := npan.(*InjPanic); !ok {
 				w.nestedPanic = npan
